@@ -56,10 +56,20 @@ pub enum Kind {
     ClientInvite { reply: Reply, delay: u64 },
     ServerRequest { copies: u8 },
     ServerCall { app: CallApp, cancel_at: Option<u64>, bye_at: Option<u64> },
-    UacCall { ring: bool, reply: Reply },
+    UacCall {
+        ring: bool,
+        reply: Reply,
+        /// the peer's dialog-creating responses carry a Contact (without one they are malformed: no dialog)
+        #[serde(default = "yes")]
+        contact: bool,
+    },
     Flood { kind: FloodKind, n: u16 },
     Conn { inbound: bool },
     Stun { answered: bool },
+}
+
+fn yes() -> bool {
+    true
 }
 
 #[derive(Serialize, Deserialize, Clone, Debug, Hash)]
@@ -92,7 +102,7 @@ fn kind_strategy() -> BoxedStrategy<Kind> {
             prop::option::of(prop_oneof![Just(2u64), Just(50u64), Just(2000u64)]),
         )
             .prop_map(|(app, cancel_at, bye_at)| Kind::ServerCall { app, cancel_at, bye_at }),
-        3 => (any::<bool>(), reply_strategy()).prop_map(|(ring, reply)| Kind::UacCall { ring, reply }),
+        3 => (any::<bool>(), reply_strategy(), prop::bool::weighted(0.75)).prop_map(|(ring, reply, contact)| Kind::UacCall { ring, reply, contact }),
         3 => (
             prop_oneof![Just(FloodKind::OrphanResponses), Just(FloodKind::StrayAcks), Just(FloodKind::UnmatchedCancels), Just(FloodKind::UnknownRequests), Just(FloodKind::Retransmissions)],
             prop_oneof![Just(100u16), Just(300u16), Just(1000u16), Just(2000u16)],
@@ -130,7 +140,8 @@ pub fn flood_cases(_tier: Tier) -> Vec<Case> {
         None,
         Some(Kind::ClientNonInvite { reply: Reply::Never, delay: 1 }),
         Some(Kind::ServerCall { app: CallApp::Hold, cancel_at: None, bye_at: None }),
-        Some(Kind::UacCall { ring: true, reply: Reply::Ok }),
+        Some(Kind::UacCall { ring: true, reply: Reply::Ok, contact: true }),
+        Some(Kind::UacCall { ring: true, reply: Reply::Ok, contact: false }),
         Some(Kind::ServerCall { app: CallApp::Accept { ack: true }, cancel_at: None, bye_at: None }),
     ];
     for kind in [FloodKind::OrphanResponses, FloodKind::StrayAcks, FloodKind::UnmatchedCancels, FloodKind::UnknownRequests, FloodKind::Retransmissions] {
@@ -375,7 +386,7 @@ async fn run_atom(ctx: Ctx, i: usize, atom: Atom) {
                 }
             }
         }
-        Kind::UacCall { ring, reply } => {
+        Kind::UacCall { ring, reply, contact: peer_sends_contact } => {
             let local: SipUri = "sip:ezk@10.0.0.1".parse().unwrap();
             let contact: SipUri = "sip:ezk@10.0.0.1:5060".parse().unwrap();
             let target: SipUri = "sip:bob@192.0.2.9".parse().unwrap();
@@ -392,7 +403,7 @@ async fn run_atom(ctx: Ctx, i: usize, atom: Atom) {
                 tokio::spawn(async move {
                     clock.advance(10).await;
                     let Some(req) = find_request(&log, &call_id, "INVITE") else { return };
-                    let extra = vec!["Contact: <sip:bob@192.0.2.9>".to_string()];
+                    let extra = if peer_sends_contact { vec!["Contact: <sip:bob@192.0.2.9>".to_string()] } else { vec![] };
                     if ring {
                         inject(&endpoint, &udp, peer, &response_text(&req, 180, Some("ut"), &extra));
                         clock.advance(50).await;
@@ -568,6 +579,9 @@ pub fn run(case: &Case) -> Observed {
                             settle().await;
                             let opt = request_text("OPTIONS", "sip:ezk@10.0.0.1", &[format!("SIP/2.0/TCP 192.0.2.9:5060;branch=z9hG4bKconn{i}")], "<sip:p@192.0.2.9>;tag=c", "<sip:ezk@10.0.0.1>", &format!("conn-{i}"), 1, "OPTIONS", &[], b"");
                             c.write(&opt).await;
+                            // ... and an INVITE nobody wants (481 over the reliable connection) that is never ACKed
+                            let inv = request_text("INVITE", "sip:ezk@10.0.0.1", &[format!("SIP/2.0/TCP 192.0.2.9:5060;branch=z9hG4bKconninv{i}")], "<sip:p@192.0.2.9>;tag=c", "<sip:ezk@10.0.0.1>", &format!("conninv-{i}"), 1, "INVITE", &["Contact: <sip:p@192.0.2.9>".into()], b"");
+                            c.write(&inv).await;
                             peer_conns.push(c);
                         } else {
                             let uri: SipUri = format!("sip:x@192.0.2.{}:5060;transport=tcp", 20 + i).parse().unwrap();
@@ -652,7 +666,7 @@ fn bound(case: &Case, t: u64) -> Counts {
             }
             Kind::Conn { .. } => {
                 b.transports += 1;
-                b.tsx += 1;
+                b.tsx += 2;
             }
             Kind::Stun { .. } => b.stun += 1,
         }
@@ -669,6 +683,7 @@ pub fn check(case: &Case, out: &mut CaseOut) {
             Kind::ClientNonInvite { reply: Reply::Never | Reply::Provisional, .. }
                 | Kind::ClientInvite { reply: Reply::Never | Reply::Provisional, .. }
                 | Kind::UacCall { reply: Reply::Never | Reply::Provisional, .. }
+                | Kind::UacCall { contact: false, .. }
                 | Kind::Stun { answered: false }
                 | Kind::ServerCall { app: CallApp::Accept { ack: false } | CallApp::Hold, .. }
         )
